@@ -242,3 +242,66 @@ func Verif_C08_builtin_json() {
 		verifapi.Assert("bad-request-answered-with-ERROR", verifIsError(w[1]))
 	}
 }
+
+// verifSameAnswer compares two response writes: error lines byte for byte, JSON answers by value.
+func verifSameAnswer(a, b []byte) bool {
+	if verifIsError(a) || verifIsError(b) {
+		return verifapi.All(verifIsError(a), verifIsError(b), verifapi.SameBytes(a, b))
+	}
+	var ma, mb map[string]interface{}
+	return verifapi.All(verifapi.FromJSON(a, &ma), verifapi.FromJSON(b, &mb), verifapi.DeepEqual(ma, mb))
+}
+
+// Verif_C08_request_sequence: two requests on ONE session: a first request of any of the JSON shapes
+// of Verif_C08_builtin_json (accepted or rejected), or a plain-text one, followed by a well-formed
+// built-in request (plain or JSON). The second request is answered exactly as the same request is
+// answered on a fresh session: nothing of an earlier request - accepted or not - leaks into a later one.
+func Verif_C08_request_sequence() {
+	type spec struct {
+		name string
+		keys []string
+	}
+	var first []byte
+	if verifapi.Bool() {
+		cmds := []spec{{"status", []string{"requested_fields"}}, {"ping", []string{"target"}}, {"connect", []string{"node", "service"}}, {"nosuch", []string{"requested_fields", "target"}}}
+		c := cmds[verifapi.Choose(len(cmds))]
+		req := map[string]interface{}{"command": c.name}
+		for _, k := range c.keys {
+			if v, ok := verifAnyJSON(verifapi.Choose(7)); ok {
+				req[k] = v
+			}
+		}
+		first = verifapi.JSON(req)
+	} else {
+		first = [][]byte{[]byte("status"), []byte("status NodeID"), []byte("ping B"), []byte("nosuch"), []byte("x")}[verifapi.Choose(5)]
+	}
+	var second []byte
+	switch verifapi.Choose(5) {
+	case 0:
+		second = []byte("status")
+	case 1:
+		second = verifapi.JSON(map[string]interface{}{"command": "status"})
+	case 2:
+		second = []byte("ping B")
+	case 3:
+		second = verifapi.JSON(map[string]interface{}{"command": "ping", "target": "B"})
+	case 4:
+		second = verifapi.JSON(map[string]interface{}{"command": "status", "requested_fields": []interface{}{"NodeID"}})
+	}
+	run := func(lines ...[]byte) [][]byte {
+		var script []byte
+		for _, l := range lines {
+			script = append(append(script, l...), '\n')
+		}
+		conn := verifNewConn(script)
+		verifServer().RunControlSession(conn)
+		verifapi.Assert("connection-closed-once", *conn.closed == 1)
+		return *conn.writes
+	}
+	alone := run(second)
+	verifapi.Assert("fresh-session-answers-the-request", len(alone) == 2)
+	seq := run(first, second)
+	verifapi.Cover("two-requests-on-one-session")
+	verifapi.Assert("both-requests-answered", len(seq) >= 3)
+	verifapi.Assert("later-request-answered-as-on-a-fresh-session", verifSameAnswer(seq[len(seq)-1], alone[1]))
+}
